@@ -182,4 +182,32 @@ PLAN = {
               dict(kind="fuzz", target="bas", quick=dict(jobs=3, time=30, max_len=2048), thorough=dict(jobs=3, time=900, max_len=65536, empty_corpus_jobs=1)),
               dict(kind="fuzz", target="lpgz", quick=dict(jobs=2, time=30, max_len=4096), thorough=dict(jobs=2, time=900, max_len=65536))],
     ),
+    "C14": dict(
+        rule=("LP from the constructive families (blank-free names, ranged rows, free and fixed columns) x valid basis (returned by "
+              "an exact solve, or arbitrary type-correct: structurals swapped in for logicals, ranged rows at upper, free columns "
+              "non-basic) x how it is written (QSwrite_basis(p,B,f), QSwrite_basis(p,NULL,f) = the problem's own basis, plain/.gz) x "
+              "follow-up (write again; load the re-read basis / QSread_and_load_basis, optionally edit, solve primal/dual and compare "
+              "with a twin problem that never touched a file). Oracle: QSread_basis returns the same basic set and the same at-upper "
+              "set (non-basic free columns may be FREE instead of LOWER), both bases have the same exact basic solution (own "
+              "rational Gauss solve), and after writing its own basis the problem still reports exactly that basis. Non-trivial = "
+              "basis with a basic structural and a non-basic row."),
+        technique="round-trip PBT with exact basic-solution oracle + differential twin",
+        min_nontrivial=dict(quick=500, thorough=5000),
+        runs=both("", dict(cases=8000, size=100, budget=35), dict(cases=200000, size=150, budget=600)),
+    ),
+    "C12": dict(
+        rule=("(returned) LP x configuration as in C01; every basis handed back with OPTIMAL (ebasis of QSexact_solver, QSget_basis "
+              "after the direct simplex) must have exactly m basic entries and, when non-singular by the harness's own exact Gauss "
+              "solve, its basic solution must be primal and dual feasible, reproduce the reported x and value, be confirmed by "
+              "QSexact_basis_optimalstatus, QSexact_basis_dualstatus (bound = exact dual objective up to the sign of the internal min "
+              "form), QSexact_verify with and without pre-step, and a solve warm-started from it. (verdict) caller supplied bases: for "
+              "LPs with n+m<=7 EVERY basic set of size m x EVERY type-correct non-basic status assignment (up to 600 per LP, rotated "
+              "start), random type-correct bases for larger LPs; the verdict functions must answer 1 iff the exact basic solution has "
+              "the property, and the dual bound must equal the exact dual objective. Singular bases are skipped. Non-trivial = "
+              "non-singular non-slack basis on an LP with m>=2 (returned) / >=2 non-singular bases judged (verdict)."),
+        technique="PBT + bounded-exhaustive basis enumeration against an exact Gauss-solve reference",
+        min_nontrivial=dict(quick=500, thorough=5000),
+        runs=both("returned", dict(cases=8000, size=100, budget=35), dict(cases=200000, size=150, budget=600), 4, 4) +
+             both("verdict", dict(cases=2000, size=100, budget=35), dict(cases=60000, size=150, budget=600), 4, 4),
+    ),
 }
